@@ -163,6 +163,36 @@ fn exhaustive(ctx: &Ctx, report: &mut Report) {
 		}
 	}
 	if ctx.tier == Tier::Thorough {
+		// the largest representable bit sequence (2^29-1 bits, 64 MiB): encoding must not panic, and must be the
+		// compact count followed by zero-padded words (checked on the prefix, the set bits and the length)
+		{
+			use bitvec::{order::Lsb0, vec::BitVec};
+			use parity_scale_codec::Encode;
+			let n = (1usize << 29) - 1;
+			let r = guard(|| {
+				let mut bv: BitVec<u8, Lsb0> = BitVec::repeat(false, n);
+				bv.set(0, true);
+				bv.set(n - 1, true);
+				bv.encode()
+			});
+			report.stats.eval();
+			report.stats.class("bit sequence of 2^29-1 bits");
+			let ok = match &r {
+				Ok(b) =>
+					b.len() == 4 + (n + 7) / 8 &&
+						b[..4] == psc_model::enc::compact_bytes(n as u128)[..] &&
+						b[4] == 1 && b[b.len() - 1] == 0x40 &&
+						b[5..b.len() - 1].iter().all(|x| *x == 0),
+				Err(_) => false,
+			};
+			if !ok {
+				report.direct(
+					&ctx.known,
+					Violation::new("C01/bits/max-length", format!("BitVec<u8, Lsb0> of 2^29-1 bits: {}", match r { Ok(b) => format!("wrong encoding of {} bytes", b.len()), Err(p) => format!("encode panicked: {p}") })),
+					json!({"kind": "none"}),
+				);
+			}
+		}
 		// "never panics below the representable count": zero-sized elements are free
 		let e = ctx.entry("Vec<()>");
 		for n in [(1u64 << 30) - 1, 1 << 30, u64::from(u32::MAX)] {
